@@ -62,6 +62,9 @@ func checkC03(c c03Case, o *Obs) error {
 	o.LabelIf(len(c.Recs) > 1, "records>1")
 	o.LabelIf(len(c.Recs) > 50, "records>50")
 	o.LabelIf(len(c.Ref.Seq) > 4096, "width>4096")
+	for _, l := range strings.Split(want, "\n") {
+		o.LabelIf(len(l) > 65536, "output-row>64KiB")
+	}
 	o.LabelIf(c.AlnLay.Width > 0, "wrapped")
 	o.LabelIf(c.AlnLay.CRLF, "crlf")
 
@@ -112,7 +115,7 @@ func genC03(t *rapid.T) c03Case {
 	w := rapid.IntRange(1, maxW).Draw(t, "width")
 	sc := sizeClass(t, "c03")
 	if sc == 2 {
-		w = rapid.SampledFrom([]int{4095, 4096, 4097, 5000, 8193, 9000}).Draw(t, "longWidth")
+		w = rapid.SampledFrom([]int{4095, 4096, 4097, 5000, 8193, 9000, 12000}).Draw(t, "longWidth")
 	}
 	c := c03Case{HardGaps: rapid.Bool().Draw(t, "hardGaps")}
 	refSeq := genAlnSeq(t, w, "refSym")
@@ -123,6 +126,19 @@ func genC03(t *rapid.T) c03Case {
 	}
 	for i := 0; i < n; i++ {
 		var seq string
+		if sc == 2 && rapid.IntRange(0, 2).Draw(t, "divergent") == 0 {
+			// certainly different at every column: the output row of this record grows beyond 64 KiB for w >= ~9000
+			b := []byte(strings.ToUpper(refSeq))
+			for j := range b {
+				if isACGT(b[j]) {
+					b[j] = transitionOf(b[j])
+				} else {
+					b[j] = 'A'
+				}
+			}
+			c.Recs = append(c.Recs, FaRec{ID: genID(t, i, "id"), Seq: string(b)})
+			continue
+		}
 		if sc != 0 || rapid.IntRange(0, 2).Draw(t, "derive") > 0 {
 			// derived from the reference with a few changes: realistic, few SNPs
 			b := []byte(strings.ToUpper(refSeq))
